@@ -14,7 +14,7 @@ const c04Rule = "C02's schedules, configurations and fault injection plus post-r
 // TestC04Completion: Get always completes and key locks are always released.
 func TestC04Completion(t *testing.T) {
 	runCheck(t, "C04", "C04Completion", c04Rule, func(c *Case) {
-		propFailoverSched(c, scenOpts{maxKeys: 3, minGets: 1, maxGets: 6, skipRead: true, clock: 3, external: 1, prefail: true, postActions: true, faults: 2, failPct: 40, errKinds: true},
+		propFailoverSched(c, scenOpts{maxKeys: 3, minGets: 1, maxGets: 6, skipRead: true, clock: 3, external: 2, prefail: true, postActions: true, faults: 2, failPct: 40, errKinds: true},
 			func(w *world, sc *scenario, complete bool) {
 				w.checkQuiescence(sc, complete)
 
